@@ -148,6 +148,7 @@ func (r *Runtime) arrayproto_pop(call FunctionCall) Value {
 			//a._setLengthInt(l, false)
 			a.values[l] = nil
 			a.values = a.values[:l]
+			a.objCount--
 		} else {
 			val = _undefined
 		}
@@ -1009,6 +1010,7 @@ func (r *Runtime) arrayproto_shift(call FunctionCall) Value {
 		a.values[len(a.values)-1] = nil
 		a.values = a.values[:len(a.values)-1]
 		a.length--
+		a.objCount--
 		return first
 	}
 	length := toLength(o.self.getStr("length", nil))
